@@ -232,11 +232,14 @@ def random_scenarios(c, n, tr):
                 rules[-1]['leftref'] = 3 - res      # own-resource rule with a left-over RefResource (must be ignored)
         s = [dict(op='new', tr=tr, t=rng.choice([1, 499, 500, 501, 777, 1000, 9999, rng.randint(1, 30000)]), unit=1, nres=nres, rules=rules)]
         t = s[0]['t']
+        rtypes = rng.choice([None, None, [1], [2, 3], [0, 1, 4]])
         assoc = any(r['ref'] for r in rules)
         for _ in range(rng.randint(12, 40)):
             if rng.random() < 0.62:
                 res = 1 if rng.random() < (0.55 if assoc else 0.85) else 2
                 s.append(dict(op='req', res=res, b=rng.choice([0, 1, 1, 1, 1, 2, 2, 3])))
+                if rtypes:
+                    s[-1]['rt'] = rng.choice(rtypes)       # the resource is entered with a resource type (as the adapters do)
             else:
                 r = rng.choice(rules)
                 bl, iv = geometry(r['I'])
